@@ -313,6 +313,33 @@ def main():
     t.append("def patternLengths : List Nat := " + llist([str(len(lexed[k])) for k in pats]) + "\n")
     t.append("/-- zone offsets in minutes -/")
     t.append("def zoneOffsets : List Int := " + llist([str(cfg["timezones"][z]) for z in rust_sorted(cfg["timezones"].keys())]) + "\n")
+    # conversion codes: "{value}", "{value} * c", "{value} / c" (c an exact decimal) -> multiplier
+    codes = []
+    for fam in cfg["types"]:
+        for it in fam["items"]:
+            for k in ("upgrade_code", "downgrade_code"):
+                if it.get(k) is not None and it[k] not in codes:
+                    codes.append(it[k])
+    for b in cfg["type_conversion"]:
+        for k in ("to_source_calculation", "to_target_calculation"):
+            if b[k] not in codes:
+                codes.append(b[k])
+    rows = []
+    for code in sorted(codes, key=lambda c: c.encode()):
+        m = re.match(r"^\{value\}(?:\s*([*/])\s*([0-9]+(?:\.[0-9]+)?))?$", code)
+        if not m:
+            die(f"conversion code {code!r} is not of the shape '{{value}}', '{{value}} * c' or '{{value}} / c'")
+        if m.group(1) is None:
+            n_, d_ = 1, 1
+        else:
+            n_, d_ = Decimal(m.group(2)).as_integer_ratio()
+            if n_ == 0:
+                die(f"conversion code {code!r} has a zero constant")
+            if m.group(1) == "/":
+                n_, d_ = d_, n_
+        rows.append(f"({lstr(code)}, {n_}, {d_})")
+    t.append("/-- conversion code text ↦ the multiplier it denotes (numerator, denominator) -/")
+    t.append("def codeFactors : List (String × Nat × Nat) := " + llist(rows) + "\n")
     t.append("/-- parser order of TOKEN_REGEX_PARSER -/")
     t.append("def parserOrder : List String := " + llist([lstr(x) for x in order]) + "\n")
     t.append("end SC.Gen\n")
